@@ -19,7 +19,11 @@ PROP = dict(
         "data fragment: numbers, tuples (generic, the four specialised, @neg wrappers incl. nested), all nine set representations, "
         "nested to depth 3-4; functions/closures excluded",
         "sets whose members superimpose two sugar tuples at one index are excluded (KF-superimposed)",
-        "`-x` on char/byte tuples is not generated (negated chars are hole markers: C05/C01)"],
+        "`-x` on char/byte tuples is not generated (negated chars are hole markers: C05/C01)",
+        "dense strata: 15% of the cases are specialised tuples (char/byte/item/entry) with crossed components, bare and wrapped in "
+        "tuples/arrays/sets/dict values; 15% are sets of 4-8 keys whose text order and < order disagree (offset strings/arrays/bytes, "
+        "holes, mixed kinds); every case checks all clients of the order: < <= > >= = !=, orderby ., orderby .k, order \\a \\b a<b / a>b, "
+        "rank with one and with two ranking attributes, max/min with . and .k, printed order of set members, dict entries and relation rows"],
     level_text="Proof: 40 Lean theorems about the transliteration of all 15 Less methods (as repaired), Kind(), compareOps, OrderBy, "
                "OrderedValues, Rank, max/min: an order embedding less a b <-> key a < key b into a proved linear order gives "
                "irreflexivity, transitivity, trichotomy (exactly one of a<b, a=b, b<a), <= > >= as derived relations, "
